@@ -37,6 +37,6 @@ def generate(seed, tier, focus="keep"):
                 # (a name in neither table goes to the DNS: only the configured names are asked)
                 if exp is None:
                     continue
-                lines.append(("cfg hosts %s %s " % (hx(y), hx(n)) + " ".join(flat)).rstrip() + " # spec=C02 eq " + exp)
+                lines.append(("cfg hosts %s %s " % (hx(y), hx(n)) + " ".join(flat)).rstrip() + " # spec=C02 eq " + exp + " # spec=C13 eq " + exp)
                 g.count("host_lookups")
     return lines, g.stats
